@@ -287,6 +287,469 @@ int main(int argc, char** argv) {
   return 2;
 }
 
+// ------------------------------------------------------------------------------------------
+// appender mode: the real AsyncFileAppender under 1..4 logging threads.
+//
+// input, one run per line:   run threads=T ps=P cap=Q files=F rot=R n=N seed=S
+//   T logging threads write N entries each into F recording file objects (memfd-backed; every R-th
+//   check_and_get_file_descriptor of a file object returns a fresh descriptor = rotation, R=0: never),
+//   queue capacity Q, page size P; close() after the writers have joined.
+//   drain=1 (default): wait until pending_size()==0 before close().  close() on a FULL queue sleeps in
+//   futex_wait and is never woken (the consumer pops without futex wake): see patches/C20-close-lost-wakeup.diff.
+//   drain=0 slow=MS: no draining, and the first descriptor check sleeps MS milliseconds, so that the
+//   queue is full when close() is called (the probe for that hang; run under a timeout).
+// output per run:
+//   RUN <line>
+//   T <model op line>     the recorded run as events of the abstract model (lean/Drivers/C20.lean `app …`)
+//   O <observed line>     what the implementation did for that op, in the model driver's output format
+//   STATS …
+//   ORACLE ok | ORACLE !ORACLE(kind …)    property oracle on the files read back + the allocator
+//   END
+struct RecEvent {
+  enum Kind { CHECK, WRITEV, DEALLOC } kind;
+  size_t file {0};
+  size_t fdidx {0};
+  std::vector<std::pair<size_t, size_t>> iov;  // WRITEV: (page#, len)
+  std::vector<size_t> pages;                   // DEALLOC
+};
+
+struct Recorder {
+  std::mutex mu;
+  std::vector<RecEvent> events;
+  std::map<int, std::pair<size_t, size_t>> fdmap;  // live fd -> (file, fd index)
+  RecAllocator* alloc {nullptr};
+};
+static Recorder* g_rec = nullptr;
+
+extern "C" ssize_t writev(int fd, const struct iovec* iov, int cnt) {
+  Recorder* rec = g_rec;
+  if (rec != nullptr) {
+    std::lock_guard<std::mutex> g(rec->mu);
+    auto it = rec->fdmap.find(fd);
+    if (it != rec->fdmap.end()) {
+      RecEvent e;
+      e.kind = RecEvent::WRITEV;
+      e.file = it->second.first;
+      e.fdidx = it->second.second;
+      for (int i = 0; i < cnt; ++i) {
+        e.iov.emplace_back(rec->alloc->number(iov[i].iov_base), iov[i].iov_len);
+      }
+      rec->events.push_back(std::move(e));
+    }
+  }
+  return ::syscall(SYS_writev, fd, iov, cnt);
+}
+
+// allocator that also reports deallocate() calls to the recorder
+class RecAllocator2 : public RecAllocator {
+ public:
+  using RecAllocator::RecAllocator;
+  using PageAllocator::allocate;
+  using PageAllocator::deallocate;
+  void deallocate(void** pages, size_t num) noexcept override {
+    RecEvent e;
+    e.kind = RecEvent::DEALLOC;
+    for (size_t i = 0; i < num; ++i) {
+      e.pages.push_back(number(pages[i]));
+    }
+    RecAllocator::deallocate(pages, num);
+    if (g_rec != nullptr) {
+      std::lock_guard<std::mutex> g(g_rec->mu);
+      g_rec->events.push_back(std::move(e));
+    }
+  }
+};
+
+struct MemFile : public FileObject {
+  size_t id {0};
+  int cur {-1};
+  std::vector<int> keep;  // dup()s of every descriptor handed out, for reading back
+  size_t calls {0};
+  size_t rot_every {0};
+  size_t slow_ms {0};
+  std::tuple<int, int> check_and_get_file_descriptor() noexcept override {
+    int old = -1;
+    if (slow_ms != 0 && calls == 0) {
+      ::usleep(static_cast<useconds_t>(slow_ms * 1000));
+    }
+    if (cur < 0 || (rot_every != 0 && calls % rot_every == 0)) {
+      old = cur;
+      cur = static_cast<int>(::syscall(SYS_memfd_create, "c20", 0));
+      keep.push_back(::dup(cur));
+      std::lock_guard<std::mutex> g(g_rec->mu);
+      if (old >= 0) {
+        g_rec->fdmap.erase(old);
+      }
+      g_rec->fdmap[cur] = {id, keep.size() - 1};
+    }
+    ++calls;
+    {
+      std::lock_guard<std::mutex> g(g_rec->mu);
+      RecEvent e;
+      e.kind = RecEvent::CHECK;
+      e.file = id;
+      e.fdidx = keep.size() - 1;
+      g_rec->events.push_back(std::move(e));
+    }
+    return std::tuple<int, int>(cur, old);
+  }
+};
+
+struct Written {
+  size_t tid, seq, file, size;
+  std::vector<std::pair<size_t, size_t>> iov;
+  long round {-1};
+};
+
+static inline uint64_t mix(uint64_t& x) {
+  x ^= x << 13;
+  x ^= x >> 7;
+  x ^= x << 17;
+  return x;
+}
+
+static std::string payload(size_t tid, size_t seq, size_t len) {
+  std::string s(16 + len, '\0');
+  uint32_t h[4] = {0x31474f4cu, static_cast<uint32_t>(tid), static_cast<uint32_t>(seq), static_cast<uint32_t>(len)};
+  std::memcpy(&s[0], h, 16);
+  for (size_t k = 0; k < len; ++k) {
+    s[16 + k] = static_cast<char>(pat(tid * 1000003 + seq, k));
+  }
+  return s;
+}
+
+static std::string run_one(const std::string& line) {
+  std::map<std::string, size_t> cfg {{"threads", 2}, {"ps", 64}, {"cap", 64}, {"files", 1}, {"rot", 0}, {"n", 10}, {"seed", 1}, {"drain", 1}, {"slow", 0}};
+  {
+    std::istringstream is(line);
+    std::string w;
+    is >> w;
+    while (is >> w) {
+      auto eq = w.find('=');
+      if (eq != std::string::npos) {
+        cfg[w.substr(0, eq)] = std::stoull(w.substr(eq + 1));
+      }
+    }
+  }
+  size_t T = cfg["threads"], P = cfg["ps"], Q = cfg["cap"], F = cfg["files"], R = cfg["rot"], N = cfg["n"], S = cfg["seed"];
+  std::ostringstream out;
+  out << "RUN " << line << "\n";
+  Recorder rec;
+  RecAllocator2 alloc(P);
+  rec.alloc = &alloc;
+  g_rec = &rec;
+  std::vector<std::unique_ptr<MemFile>> files;
+  for (size_t f = 0; f < F; ++f) {
+    files.emplace_back(new MemFile);
+    files.back()->id = f;
+    files.back()->rot_every = R;
+    files.back()->slow_ms = cfg["slow"];
+  }
+  std::vector<std::vector<Written>> per_thread(T);
+  size_t capacity = 0;
+  {
+    AsyncFileAppender app;
+    app.set_page_allocator(alloc);
+    app.set_queue_capacity(Q);
+    capacity = app._queue.capacity();
+    app.initialize();
+    size_t K = LogEntry::INLINE_PAGE_CAPACITY;
+    size_t E = P >= 16 ? (P - 8) / 8 : 1;
+    std::vector<std::thread> threads;
+    for (size_t t = 0; t < T; ++t) {
+      threads.emplace_back([&, t] {
+        uint64_t x = S * 0x9E3779B97F4A7C15ull + t * 0xD1B54A32D192ED03ull + 1;
+        LogStreamBuffer buf;
+        buf.set_page_allocator(alloc);
+        for (size_t i = 0; i < N; ++i) {
+          size_t kind = mix(x) % 16;
+          size_t len;
+          if (kind < 6) {
+            len = mix(x) % (P + 2);
+          } else if (kind < 10) {
+            len = mix(x) % (4 * P);
+          } else if (kind < 12) {
+            len = K * P - 16 - 1 + mix(x) % 3;  // total at K*P-1 .. K*P+1
+          } else if (kind < 14) {
+            len = (K - 1 + E) * P - 16 - 1 + mix(x) % 3;
+          } else if (kind < 15) {
+            len = mix(x) % ((K + 2 * E + 2) * P);
+          } else {
+            len = 0;
+          }
+          if (P > 512 && len > 40 * P) {
+            len = mix(x) % (20 * P);
+          }
+          std::string data = payload(t + 1, i, len);
+          buf.begin();
+          size_t pos = 0;
+          while (pos < data.size()) {
+            size_t c = 1 + mix(x) % (2 * P + 3);
+            c = std::min(c, data.size() - pos);
+            buf.sputn(data.data() + pos, static_cast<std::streamsize>(c));
+            pos += c;
+          }
+          LogEntry& e = buf.end();
+          Written w;
+          w.tid = t + 1;
+          w.seq = i;
+          w.file = mix(x) % F;
+          w.size = e.size;
+          std::vector<struct ::iovec> iov;
+          e.append_to_iovec(P, iov);
+          for (auto& v : iov) {
+            w.iov.emplace_back(alloc.number(v.iov_base), v.iov_len);
+          }
+          per_thread[t].push_back(w);
+          app.write(e, files[w.file].get());
+          size_t z = mix(x) % 8;
+          if (z == 0) {
+            ::usleep(static_cast<useconds_t>(mix(x) % 300));
+          } else if (z < 3) {
+            ::sched_yield();
+          }
+        }
+      });
+    }
+    for (auto& th : threads) {
+      th.join();
+    }
+    if (cfg["drain"] != 0) {
+      while (app.pending_size() != 0) {
+        ::usleep(50);
+      }
+    }
+    app.close();
+  }
+  g_rec = nullptr;
+
+  // ---- index the entries by their first page
+  std::map<size_t, Written*> by_first_page;
+  size_t total_entries = 0;
+  for (auto& v : per_thread) {
+    for (auto& w : v) {
+      ++total_entries;
+      if (!w.iov.empty()) {
+        by_first_page[w.iov[0].first] = &w;
+      }
+    }
+  }
+  std::vector<std::string> oracle;
+  // ---- split the recorded events into rounds
+  struct FlushRec {
+    size_t file, fdidx;
+    std::vector<std::vector<std::pair<size_t, size_t>>> calls;
+    std::vector<size_t> freed;
+  };
+  struct Round {
+    std::vector<size_t> fds;  // one per destination, in destination order
+    std::vector<FlushRec> flushes;
+    std::vector<Written*> entries;
+  };
+  std::vector<Round> rounds;
+  long first_dest = -1;
+  for (auto& e : rec.events) {
+    if (e.kind == RecEvent::CHECK) {
+      if (first_dest < 0) {
+        first_dest = static_cast<long>(e.file);
+      }
+      if (static_cast<long>(e.file) == first_dest) {
+        rounds.emplace_back();
+      }
+      rounds.back().fds.push_back(e.fdidx);
+    } else if (e.kind == RecEvent::WRITEV) {
+      if (rounds.empty()) {
+        oracle.push_back("!ORACLE(trace writev before any descriptor check)");
+        continue;
+      }
+      auto& fl = rounds.back().flushes;
+      if (fl.empty() || fl.back().file != e.file || !fl.back().freed.empty()) {
+        fl.push_back(FlushRec {e.file, e.fdidx, {}, {}});
+      }
+      if (fl.back().fdidx != e.fdidx) {
+        oracle.push_back("!ORACLE(mixed one destination written through two descriptors in one round)");
+      }
+      fl.back().calls.push_back(e.iov);
+    } else {
+      if (rounds.empty() || rounds.back().flushes.empty()) {
+        oracle.push_back("!ORACLE(trace deallocate without a preceding writev)");
+        continue;
+      }
+      rounds.back().flushes.back().freed = e.pages;
+    }
+  }
+  // ---- which entries did each round write (consumption order per destination)
+  size_t spans = 0, maxbatch = 0, rotations = 0, maxcall = 0;
+  for (size_t r = 0; r < rounds.size(); ++r) {
+    for (auto& fl : rounds[r].flushes) {
+      std::vector<std::pair<size_t, size_t>> flat;
+      std::vector<size_t> call_of;  // element index -> call number
+      for (size_t c = 0; c < fl.calls.size(); ++c) {
+        maxcall = std::max(maxcall, fl.calls[c].size());
+        for (auto& v : fl.calls[c]) {
+          flat.push_back(v);
+          call_of.push_back(c);
+        }
+      }
+      size_t pos = 0;
+      while (pos < flat.size()) {
+        auto it = by_first_page.find(flat[pos].first);
+        if (it == by_first_page.end() || it->second->round >= 0 || pos + it->second->iov.size() > flat.size() ||
+            !std::equal(it->second->iov.begin(), it->second->iov.end(), flat.begin() + static_cast<ptrdiff_t>(pos)) ||
+            it->second->file != fl.file) {
+          oracle.push_back("!ORACLE(mixed writev stream of file " + std::to_string(fl.file) + " in round " +
+                           std::to_string(r) + " is not a sequence of whole entries at element " + std::to_string(pos) + ")");
+          break;
+        }
+        it->second->round = static_cast<long>(r);
+        rounds[r].entries.push_back(it->second);
+        if (call_of[pos] != call_of[pos + it->second->iov.size() - 1]) {
+          ++spans;
+        }
+        pos += it->second->iov.size();
+      }
+    }
+    maxbatch = std::max(maxbatch, rounds[r].entries.size());
+  }
+  for (auto& f : files) {
+    rotations += f->keep.empty() ? 0 : f->keep.size() - 1;
+  }
+  // ---- the run as model events + what was observed
+  auto commas = [](const std::vector<size_t>& v) {
+    std::string s;
+    for (size_t i = 0; i < v.size(); ++i) {
+      s += (i ? "," : "") + std::to_string(v[i]);
+    }
+    return s;
+  };
+  out << "T app init " << capacity << "\nO ok\n";
+  size_t total_freed = 0;
+  for (size_t r = 0; r < rounds.size(); ++r) {
+    bool last = r + 1 == rounds.size();
+    for (auto* w : rounds[r].entries) {
+      out << "T app w " << w->tid << " " << w->file << " " << w->size;
+      for (auto& v : w->iov) {
+        out << " " << v.first << ":" << v.second;
+      }
+      out << "\nO ok\n";
+    }
+    if (last) {
+      out << "T app close\nO ok\n";
+    }
+    out << "T app round " << (rounds[r].entries.size() + (last ? 1 : 0)) << " 0";
+    for (auto fd : rounds[r].fds) {
+      out << " " << fd;
+    }
+    out << "\nO exited=" << (last ? 1 : 0) << " flushes=" << rounds[r].flushes.size();
+    for (auto& fl : rounds[r].flushes) {
+      std::vector<size_t> lens;
+      std::string iov;
+      for (auto& c : fl.calls) {
+        lens.push_back(c.size());
+        for (auto& v : c) {
+          iov += (iov.empty() ? "" : ",") + std::to_string(v.first) + ":" + std::to_string(v.second);
+        }
+      }
+      total_freed += fl.freed.size();
+      out << " | f=" << fl.file << " fd=" << fl.fdidx << " calls=" << commas(lens) << " iov=" << iov
+          << " freed=" << commas(fl.freed);
+    }
+    out << "\n";
+  }
+  out << "T app end\nO exited=1 queue=0 processed=" << total_entries << " freed=" << total_freed << "\n";
+  // ---- property oracle on the files read back
+  std::map<std::pair<size_t, size_t>, size_t> seen;  // (tid, seq) -> times
+  for (auto& f : files) {
+    std::map<size_t, long> last_seq;
+    for (size_t k = 0; k < f->keep.size(); ++k) {
+      int fd = f->keep[k];
+      off_t sz = ::lseek(fd, 0, SEEK_END);
+      std::string content(static_cast<size_t>(sz), '\0');
+      if (sz > 0 && ::pread(fd, &content[0], static_cast<size_t>(sz), 0) != sz) {
+        oracle.push_back("!ORACLE(io cannot read back file)");
+      }
+      ::close(fd);
+      size_t pos = 0;
+      while (pos < content.size()) {
+        uint32_t h[4];
+        if (pos + 16 > content.size()) {
+          oracle.push_back("!ORACLE(mixed truncated header in file " + std::to_string(f->id) + " descriptor " + std::to_string(k) + ")");
+          break;
+        }
+        std::memcpy(h, &content[pos], 16);
+        if (h[0] != 0x31474f4cu || pos + 16 + h[3] > content.size() ||
+            content.compare(pos, 16 + h[3], payload(h[1], h[2], h[3])) != 0) {
+          oracle.push_back("!ORACLE(mixed file " + std::to_string(f->id) + " descriptor " + std::to_string(k) +
+                           " offset " + std::to_string(pos) + " is not the start of an intact entry)");
+          break;
+        }
+        ++seen[{h[1], h[2]}];
+        auto ls = last_seq.find(h[1]);
+        if (ls != last_seq.end() && ls->second >= static_cast<long>(h[2])) {
+          oracle.push_back("!ORACLE(order file " + std::to_string(f->id) + ": thread " + std::to_string(h[1]) + " entry " +
+                           std::to_string(h[2]) + " after entry " + std::to_string(ls->second) + ")");
+        }
+        last_seq[h[1]] = static_cast<long>(h[2]);
+        if (h[1] >= 1 && h[1] <= T && h[2] < N && per_thread[h[1] - 1][h[2]].file != f->id) {
+          oracle.push_back("!ORACLE(once entry written to a file object it was not addressed to)");
+        }
+        pos += 16 + h[3];
+      }
+    }
+  }
+  size_t missing = 0, dup = 0;
+  for (size_t t = 0; t < T; ++t) {
+    long last_round = -1;
+    for (size_t i = 0; i < N; ++i) {
+      auto it = seen.find({t + 1, i});
+      if (it == seen.end()) {
+        ++missing;
+      } else if (it->second != 1) {
+        ++dup;
+      }
+      long r = per_thread[t][i].round;
+      if (r >= 0 && r < last_round) {
+        oracle.push_back("!ORACLE(order thread " + std::to_string(t + 1) + " entry " + std::to_string(i) +
+                         " written in an earlier round than its predecessor)");
+      }
+      last_round = std::max(last_round, r);
+    }
+  }
+  if (missing || dup || seen.size() != total_entries) {
+    oracle.push_back("!ORACLE(once " + std::to_string(missing) + " entries missing, " + std::to_string(dup) +
+                     " duplicated, " + std::to_string(seen.size()) + " distinct found of " + std::to_string(total_entries) + ")");
+  }
+  if (alloc.live() != 0 || alloc._bad_free != 0 || alloc._freed.size() != alloc._allocated.size()) {
+    oracle.push_back("!ORACLE(returned " + std::to_string(alloc.live()) + " pages still live of " +
+                     std::to_string(alloc._allocated.size()) + " allocated, " + std::to_string(alloc._bad_free) + " bad frees)");
+  }
+  if (maxcall > IOV_MAX) {
+    oracle.push_back("!ORACLE(iovmax writev with " + std::to_string(maxcall) + " elements)");
+  }
+  out << "STATS entries=" << total_entries << " rounds=" << rounds.size() << " maxbatch=" << maxbatch
+      << " rotations=" << rotations << " spans=" << spans << " maxcall=" << maxcall << " pages=" << alloc._allocated.size()
+      << " capacity=" << capacity << "\n";
+  if (oracle.empty()) {
+    out << "ORACLE ok\n";
+  } else {
+    out << "ORACLE";
+    for (size_t i = 0; i < oracle.size() && i < 5; ++i) {
+      out << " " << oracle[i];
+    }
+    out << "\n";
+  }
+  out << "END\n";
+  return out.str();
+}
+
 int run_appender_mode() {
-  return 2;
+  ::alarm(300);  // a wedged appender must not hang the check
+  std::string line;
+  while (std::getline(std::cin, line)) {
+    if (line.compare(0, 3, "run") != 0) {
+      continue;
+    }
+    std::cout << run_one(line) << std::flush;
+  }
+  return 0;
 }
